@@ -40,6 +40,9 @@ def cases(chk):
         out.append((n, list(range(n)), "plain"))
     for n in ([37, 100] if quick else [100, 257, 600, 1024]):
         out.append((n, sorted(rng.sample(range(n), 3 if quick else 8)), "plain"))
+    # the largest number of scripts the tool takes (1024) and one less
+    out.append((1024, [0, 1023], "plain"))
+    out.append((1023, [511], "plain"))
     # more than 128 leaves: merkle paths of 8 and more nodes (control blocks beyond 289 bytes)
     out.append((129, [0, 126, 127, 128], "plain"))
     out.append((200, sorted(rng.sample(range(200), 3)), "plain"))
@@ -168,8 +171,17 @@ def run(chk):
                     if root is None:
                         continue
                     sig = btc.schnorr_sign(btc.taproot_tweak_seckey(sec_int, root), h)
+                    if wi % 3 == 0:
+                        # a signature whose first byte is 50 (what an annex starts with): alone in the witness it is the signature, not an annex
+                        for g in range(1, 6000):
+                            sig = btc.schnorr_sign(btc.taproot_tweak_seckey(sec_int, root), h, aux=g.to_bytes(32, "big"))
+                            if sig[0] == 0x50: break
                 else:
                     sig = btc.schnorr_sign(leafsecs[idx], h)
+                    if wi % 3 == 1:
+                        for g in range(1, 6000):
+                            sig = btc.schnorr_sign(leafsecs[idx], h, aux=g.to_bytes(32, "big"))
+                            if sig[0] == 0x50: break
                 r3 = run_tap(tap, ["--sig=" + sp(sig.hex())] + txargs + base + spendargs)
                 evs.append(dict(common, mode=mode, idx=-1 if idx == "key" else idx, args=xargs, addr=r3["addr"], tx=r3["tx"], txin=funding.hex(), sighash="",
                                 sig=sig.hex(), code=r3["code"] if r3["tx"] else (r3["code"] or 1)))
